@@ -51,4 +51,47 @@ Proof.
     + f_equal. apply IH, Hs'.
 Qed.
 Lemma nonul_firstn : forall n s, nonul s -> nonul (firstn n s).
-Proof. intros n s Hs. unfold nonul in *. rewrite Forall_forall in *. intros x Hx. apply Hs. eapply In_firstn; eauto using firstn_subset. Unshelve. Abort.
+Proof.
+  induction n as [|n IH]; intros s Hs; destruct s as [|b s]; cbn [firstn]; try constructor.
+  - inversion Hs; auto.
+  - apply IH. inversion Hs; auto.
+Qed.
+Lemma nonul_skipn : forall n s, nonul s -> nonul (skipn n s).
+Proof.
+  induction n as [|n IH]; intros s Hs; destruct s as [|b s]; cbn [skipn]; auto.
+  apply IH. inversion Hs; auto.
+Qed.
+Lemma firstn_repeat0 : forall n m, (n <= m)%nat -> firstn n (repeat 0 m) = repeat 0 n.
+Proof.
+  induction n as [|n IH]; intros m Hm; cbn [firstn repeat]; auto.
+  destruct m as [|m]; [lia|]. cbn [repeat]. f_equal. apply IH. lia.
+Qed.
+(* a string stored in a field wider than itself, read back within the field *)
+Lemma cstr_padz_field : forall w s r, nonul s -> (length s < w)%nat -> cstr (firstn w (padz w s ++ r)) = s.
+Proof.
+  intros w s r Hs Hl. unfold padz.
+  rewrite firstn_app_len by (rewrite app_length, repeat_length; lia).
+  replace (w - length s)%nat with (S (w - length s - 1)) by lia. cbn [repeat].
+  apply cstr_app_nul, Hs.
+Qed.
+Lemma cstr_padz : forall w s r, nonul s -> (length s < w)%nat -> cstr (padz w s ++ r) = s.
+Proof.
+  intros w s r Hs Hl. unfold padz.
+  replace (w - length s)%nat with (S (w - length s - 1)) by lia. cbn [repeat].
+  rewrite <- app_assoc. cbn [app]. apply cstr_app_nul, Hs.
+Qed.
+Lemma length_padz : forall w s, (length s <= w)%nat -> length (padz w s) = w.
+Proof. intros. unfold padz. rewrite app_length, repeat_length. lia. Qed.
+
+(* ---- the offset map ---- *)
+Lemma lookup_in : forall l k v,
+  In (k, v) l -> (forall v', In (k, v') l -> v' = v) -> lookup k l = Some v.
+Proof.
+  induction l as [|[k0 v0] l IH]; intros k v Hin Hf; cbn [lookup].
+  - destruct Hin.
+  - destruct (k0 =? k) eqn:E.
+    + apply N.eqb_eq in E; subst. f_equal. apply Hf. left; reflexivity.
+    + apply IH.
+      * destruct Hin as [H|H]; [inversion H; subst; rewrite N.eqb_refl in E; discriminate|exact H].
+      * intros v' Hv'. apply Hf. right; exact Hv'.
+Qed.
